@@ -34,9 +34,12 @@ def versionLess (a b : Version) : Bool :=
     | _ => bytesLt a.key.version b.key.version      -- unreachable for two npm versions
   | none, none => bytesLt a.key.version b.key.version
 
-def isInfix (needle : Bytes) : Bytes → Bool
-  | [] => needle.isEmpty
-  | c :: cs => needle.isPrefixOf (c :: cs) || isInfix needle cs
+/-- `strings.Split(s, ",")` (one-byte separator): `""` gives `[""]`, consecutive separators give
+empty elements. -/
+def splitByte (c : UInt8) (s : Bytes) : List Bytes :=
+  let r := s.foldr (fun x (acc : Bytes × List Bytes) =>
+    if x = c then ([], acc.1 :: acc.2) else (x :: acc.1, acc.2)) ([], [])
+  r.1 :: r.2
 
 /-- the `latest` scan (match.go:88-99): (allPrerelease, latestIdx, latestIsPrerelease). -/
 def scanLatest : List Version → Nat → Bool × Option Nat × Bool → Bool × Option Nat × Bool
@@ -46,7 +49,8 @@ def scanLatest : List Version → Nat → Bool × Option Nat × Bool → Bool ×
     let allPre := match sv with | some s => allPre && s.isPrerelease | none => false
     let tags := v.attrs.tags.getD []                 -- `tags, _ := v.GetAttr(version.Tags)`
     let (idx, lpre) :=
-      if isInfix latestTag tags then (some i, match sv with | some s => s.isPrerelease | none => false)
+      -- `slices.Contains(strings.Split(tags, ","), "latest")` (was `strings.Contains`: F-C12-latest-substr)
+      if (splitByte 44 tags).contains latestTag then (some i, match sv with | some s => s.isPrerelease | none => false)
       else (idx, lpre)
     scanLatest vs (i + 1) (allPre, idx, lpre)
 
@@ -61,12 +65,6 @@ def sortNPMVersions (vs : List Version) : List Version :=
       | none => sorted
     else sorted
   | _ => sorted
-
-/-- `strings.Split(s, ",")`. -/
-def splitByte (c : UInt8) (s : Bytes) : List Bytes :=
-  let r := s.foldr (fun x (acc : Bytes × List Bytes) =>
-    if x = c then ([], acc.1 :: acc.2) else (x :: acc.1, acc.2)) ([], [])
-  r.1 :: r.2
 
 /-- `matchNPMRequirement` (match.go:166-192). -/
 def matchNPMRequirement (req : VersionKey) (vers : List Version) : Res (List Version) :=
